@@ -6,6 +6,26 @@ chk("C06",
     "all address bits are symbolic so the verdict covers every IPv4/IPv6 address (the only bound is the zone length, which the code never reads).",
     SMT + "; implementation and doc-derived reference each merged to one term, equivalence decided per address kind")
 
+chk("C15",
+    "Bounded symbolic model checking of LimitReader/TruncatedWriter: a one-step inductive harness from an arbitrary symbolic state (all 64-bit limits/counters, "
+    "representation invariant assumed) plus bounded call histories against nondeterministic contract-obeying reader/writer stubs.",
+    SMT + "; inductive step + bounded histories; wrapped reader/writer are nondeterministic stubs")
+
+chk("C02",
+    "Differential bounded symbolic execution: each allocation-free validator and its real reference parser (netip.ParseAddr/ParseAddrPort, ValidateHostname[Label]) run on the same symbolic string; "
+    "all byte strings up to a length bound plus shape families (IPv6 field counts, ports around 65535, labels 0..65, names around 63/253) chosen from the code's boundaries.",
+    SMT + "; differential harness vs. the real reference parser")
+
+chk("C03",
+    "Bounded symbolic execution of ValidateHostname/DomainName/SRVDomainName with the real idna.ToASCII against a reference grammar written from the statement, "
+    "the inclusion chain, and the *AddrError/Addr assertions, for all ASCII names up to a length bound plus length-boundary shapes.",
+    SMT + "; reference-grammar oracle")
+
+chk("C04",
+    "Bounded symbolic execution of the ARPA address codec: round trip over fully symbolic address bits (all 2^32 + 2^128 addresses) with case variants, "
+    "and an accepted-language harness asserting that every accepted name is the canonical name of the returned address.",
+    SMT + "; round trip over all address bits + accepted-language canonicity")
+
 _pending = "check not built yet in this session; see DESIGN.md for the plan"
 for pid in ["C01","C02","C03","C04","C05","C07","C08","C09","C10","C11","C12","C13","C14","C15","C16","C17","C18"]:
     if pid not in CHECKS:
